@@ -44,6 +44,10 @@ pub fn run(tier: &str, seed: u64, out: &mut Out) {
     let mut rng = Rng::new(seed ^ 0x57f1);
     let n = if tier == "thorough" { 2500 } else { 350 };
     let hand: Vec<String> = vec![
+        // a static piece that ends in `{` (third or later piece of a mixed value) directly before a binding
+        "<v>{{a}} = &#123;{{b}}}</v><v t=\"{{a}}: &#123;{{b}}\">x{{c}}y&#123;{{d}}z&#123;{{a}}</v>".into(),
+        // KF-C14-4: a data field spelled like a mangled scope name
+        "<c><div slot:a>{{ _$0 }}|{{ a }}</div></c>".into(),
         "<v a=\"{{ 'a' + b }}\">{{ c + 'x' }}{{ 'p' + 'q' }}</v>".into(),
         "<v>&#123;&#123;a}} &#123;{ b }}</v><w a=\"&#123;&#123;c}}\"/>".into(),
         "<v a=\"{{ (1).a }}\" b=\"{{ (1.5).x }}\" c=\"{{ 1e999 }}\" d=\"{{ [.5,,] }}\"/>".into(),
